@@ -78,8 +78,10 @@ def make_cert(subject_cn, subject_pub, issuer_cn, issuer_key, window="valid", se
         raise ValueError(window)
     b = (x509.CertificateBuilder().subject_name(name(subject_cn)).issuer_name(name(issuer_cn))
          .public_key(subject_pub).serial_number(serial).not_valid_before(nb)
-         .not_valid_after(na)
-         .add_extension(x509.BasicConstraints(ca=ca, path_length=None), critical=True))
+         .not_valid_after(na))
+    if ca is not None:
+        # (ca=None: a certificate without the extension)
+        b = b.add_extension(x509.BasicConstraints(ca=ca, path_length=None), critical=True)
     from cryptography.hazmat.primitives.asymmetric import ed25519, ed448
     if isinstance(issuer_key, (ed25519.Ed25519PrivateKey, ed448.Ed448PrivateKey)):
         return b.sign(issuer_key, None)       # (these algorithms take no separate hash)
@@ -188,6 +190,8 @@ def build(rng, depth=None, custom_data=None, auth_len=None, windows=None, leaf_c
     # certifier's subject name: who certifies whom is said by the certificate file's
     # `signed_by` and settled by the signature - names are labels)
     m.odd_issuer_name = rng.randrange(depth) if rng.random() < 1 / 8 else None
+    m.odd_constraints = rng.choice([[False], [None], [False, True], [None, False],
+                                    [True]]) if rng.random() < 1 / 8 else None
     for i in range(depth):
         curve = leaf_curve if (leaf_curve is not None and i == depth - 1) else None
         k = new_key(rng, curve)
@@ -195,8 +199,14 @@ def build(rng, depth=None, custom_data=None, auth_len=None, windows=None, leaf_c
         if m.odd_issuer_name == i:
             issuer_cn = rng.choice(["Intel SGX Root CA", issuer_cn.upper(), issuer_cn + " ",
                                     "x", cn])
+        ca_ = (i < depth - 1)
+        if m.odd_constraints is not None:
+            # (who may certify whom is said by the file's `signed_by` and settled by the
+            # signatures; the basic-constraints extension - CA true / false / absent - is
+            # nothing the statement mentions)
+            ca_ = m.odd_constraints[i % len(m.odd_constraints)]
         c = make_cert(cn, k.public_key(), issuer_cn, issuer_key, window=windows[i],
-                      serial=10 + i, ca=(i < depth - 1))
+                      serial=10 + i, ca=ca_)
         m.cert_keys.append(k)
         m.certs.append(c)
         issuer_key, issuer_cn = k, cn
